@@ -435,3 +435,222 @@ class DS(object):
 
     def n_slices(self, axis):
         return len(self.slices(axis))
+
+
+# --------------------------------------------------------------------------------------
+# Aggregators (C15) and deterministic metric definitions (C05): plain Python on lists
+# --------------------------------------------------------------------------------------
+NAN = float("nan")
+
+
+def _fr(x):
+    return Fraction(x)
+
+
+def agg_mean(xs):
+    return float(sum(map(_fr, xs)) / len(xs)) if xs else NAN
+
+
+def quantile_linear(xs, q):
+    """Linear interpolation between order statistics (position (n-1)q)."""
+    if not xs:
+        return NAN
+    s = sorted(xs)
+    pos = Fraction(repr(float(q))) * (len(s) - 1)   # the level as written (0.9 = 9/10), not its binary expansion
+    lo = int(pos)
+    hi = min(lo + 1, len(s) - 1)
+    frac = pos - lo
+    return float(_fr(s[lo]) + (_fr(s[hi]) - _fr(s[lo])) * frac)
+
+
+def aggregate(name, xs):
+    """Reference statistic `name` of the list xs (no NaN inside). Empty -> NaN (count -> 0)."""
+    xs = list(xs)
+    n = len(xs)
+    if name == "count":
+        return float(n)
+    if n == 0:
+        return NAN
+    F = [_fr(x) for x in xs]
+    if name == "mean":
+        return float(sum(F) / n)
+    if name == "median":
+        return quantile_linear(xs, 0.5)
+    if name == "min":
+        return float(min(xs))
+    if name == "max":
+        return float(max(xs))
+    if name in ("std", "variance"):
+        m = sum(F) / n
+        var = sum((f - m) ** 2 for f in F) / n
+        return float(var) if name == "variance" else math.sqrt(var)
+    if name == "iqr":
+        return quantile_linear(xs, 0.75) - quantile_linear(xs, 0.25)
+    if name == "range":
+        return float(max(xs) - min(xs))
+    if name == "sum":
+        return float(sum(F))
+    if name == "meanabs":
+        return float(sum(abs(f) for f in F) / n)
+    if name == "absmean":
+        return float(abs(sum(F) / n))
+    if name == "change":
+        return float(F[-1] - F[0])
+    if name == "abschange":
+        return float(abs(F[-1] - F[0]))
+    try:
+        q = float(name)
+    except ValueError:
+        raise KeyError(name)
+    return quantile_linear(xs, q)
+
+
+def avg_ranks(xs):
+    order = sorted(range(len(xs)), key=lambda i: xs[i])
+    ranks = [0.0] * len(xs)
+    i = 0
+    while i < len(order):
+        j = i
+        while j + 1 < len(order) and xs[order[j + 1]] == xs[order[i]]:
+            j += 1
+        r = (i + j) / 2.0 + 1
+        for k in range(i, j + 1):
+            ranks[order[k]] = r
+        i = j + 1
+    return ranks
+
+
+def pearson(xs, ys):
+    n = len(xs)
+    if n < 2:
+        return None
+    X = [_fr(x) for x in xs]
+    Y = [_fr(y) for y in ys]
+    mx = sum(X) / n
+    my = sum(Y) / n
+    sxx = sum((x - mx) ** 2 for x in X)
+    syy = sum((y - my) ** 2 for y in Y)
+    sxy = sum((x - mx) * (y - my) for x, y in zip(X, Y))
+    if sxx == 0 or syy == 0:
+        return None
+    return float(sxy) / math.sqrt(float(sxx) * float(syy))
+
+
+def kendall_tau_b(xs, ys):
+    n = len(xs)
+    if n < 2:
+        return None
+    conc = disc = tx = ty = 0
+    for i in range(n):
+        for j in range(i + 1, n):
+            dx = xs[i] - xs[j]
+            dy = ys[i] - ys[j]
+            if dx == 0 and dy == 0:
+                tx += 1
+                ty += 1
+            elif dx == 0:
+                tx += 1
+            elif dy == 0:
+                ty += 1
+            elif (dx > 0) == (dy > 0):
+                conc += 1
+            else:
+                disc += 1
+    n0 = n * (n - 1) // 2
+    den = (n0 - tx) * (n0 - ty)
+    if den == 0:
+        return None
+    return (conc - disc) / math.sqrt(den)
+
+
+def det_metric(name, pairs, agg="mean"):
+    """Textbook value of deterministic metric `name` on the list of (obs, fcst) pairs.
+    Returns a float, or None where the definition is undefined."""
+    n = len(pairs)
+    if n == 0:
+        return None
+    o = [p[0] for p in pairs]
+    f = [p[1] for p in pairs]
+    O = [_fr(x) for x in o]
+    Fc = [_fr(x) for x in f]
+    e = [b - a for a, b in zip(O, Fc)]
+
+    def A(xs):
+        v = aggregate(agg, [float(x) for x in xs])
+        return v
+
+    if name == "mae":
+        return A([abs(x) for x in e])
+    if name == "bias":
+        return A(e)
+    if name == "rmse":
+        v = A([x * x for x in e])
+        return math.sqrt(v) if v >= 0 else None
+    if name == "diff":
+        return A(Fc) - A(O)
+    if name == "ratio":
+        den = A(O)
+        return None if den == 0 else A(Fc) / den
+    if name == "rmsf":
+        if any(a == 0 for a in O) or any(b / a <= 0 for a, b in zip(O, Fc)):
+            return None
+        v = A([math.log(float(b / a)) ** 2 for a, b in zip(O, Fc)])
+        return math.exp(math.sqrt(v)) if v >= 0 else None
+    if name == "cmae":
+        v = A([abs(a ** 3 - b ** 3) for a, b in zip(O, Fc)])
+        return v ** (1.0 / 3) if v >= 0 else None
+    if name == "ef":
+        return sum(1 for a, b in zip(O, Fc) if b > a) / float(n)
+    if name == "stderror":
+        m = sum(e) / n
+        return math.sqrt(sum((x - m) ** 2 for x in e) / n)
+    if name == "obsstddev":
+        m = sum(O) / n
+        return math.sqrt(sum((x - m) ** 2 for x in O) / n)
+    if name == "fcststddev":
+        m = sum(Fc) / n
+        return math.sqrt(sum((x - m) ** 2 for x in Fc) / n)
+    if name in ("nsec", "nnsec"):
+        mo = sum(O) / n
+        den = sum((x - mo) ** 2 for x in O)
+        if den == 0:
+            return None
+        nsec = 1 - sum(x * x for x in e) / den
+        return float(nsec) if name == "nsec" else float(1 / (2 - nsec))
+    if name == "kge":
+        r = pearson(o, f)
+        mo = sum(O) / n
+        mf = sum(Fc) / n
+        so = math.sqrt(sum((x - mo) ** 2 for x in O) / n)
+        sf = math.sqrt(sum((x - mf) ** 2 for x in Fc) / n)
+        if r is None or mo == 0 or so == 0 or sf == 0:
+            return None
+        return 1 - math.sqrt((r - 1) ** 2 + (float(mf / mo) - 1) ** 2 + (sf / so - 1) ** 2)
+    if name == "alphaindex":
+        mo = sum(O) / n
+        mf = sum(Fc) / n
+        me = sum(e) / n
+        den = sum((b - mf) ** 2 + (a - mo) ** 2 for a, b in zip(O, Fc))
+        if den == 0:
+            return None
+        return float(sum((x - me) ** 2 for x in e) / den)
+    if name == "leps":
+        # mean |F_o(f_i) - F_o(o_i)| with F_o the empirical cdf of the observations
+        def cdf(x):
+            return sum(1 for a in O if a <= x) / float(n)
+        return sum(abs(cdf(b) - cdf(a)) for a, b in zip(O, Fc)) / n
+    if name == "dmb":
+        mf = sum(Fc)
+        return None if mf == 0 else float(sum(O) / mf)
+    if name == "mbias":
+        mo = sum(O)
+        return None if mo == 0 else float(sum(Fc) / mo)
+    if name == "corr":
+        return pearson(o, f)
+    if name == "rankcorr":
+        return pearson(avg_ranks(o), avg_ranks(f))
+    if name == "kendallcorr":
+        return kendall_tau_b(o, f)
+    if name == "derror":
+        return float(sum(abs(a - b) for a, b in zip(sorted(O), sorted(Fc))) / n)
+    raise KeyError(name)
